@@ -165,11 +165,35 @@ func (s *hsSide) build(initiator bool) {
 	})
 }
 
+// rebuild keeps an existing ConnData (a reconnecting party) and only creates a new machine.
+func (s *hsSide) rebuild(initiator bool) {
+	if s.Data == nil {
+		s.build(initiator)
+		return
+	}
+	s.OnAuth, s.gotAuth = nil, false
+	s.Machine, s.NewErr = mailbox.NewBrontideMachine(&mailbox.BrontideMachineConfig{
+		Initiator: initiator, HandshakePattern: s.Data.HandshakePattern(), ConnData: s.Data,
+		MinHandshakeVersion: s.Min, MaxHandshakeVersion: s.Max,
+	})
+}
+
 // runHandshake performs a real Noise handshake between the two sides over the
 // given duplex. A side whose machine could not be built does not take part.
 func runHandshake(cli, srv *hsSide, cc, sc *memConn) {
 	cli.build(true)
 	srv.build(false)
+	runBuilt(cli, srv, cc, sc)
+}
+
+// runHandshakeReuse: like runHandshake, but sides that already have a ConnData keep it.
+func runHandshakeReuse(cli, srv *hsSide, cc, sc *memConn) {
+	cli.rebuild(true)
+	srv.rebuild(false)
+	runBuilt(cli, srv, cc, sc)
+}
+
+func runBuilt(cli, srv *hsSide, cc, sc *memConn) {
 	var wg sync.WaitGroup
 	var finished int32
 	run := func(s *hsSide, c *memConn) {
